@@ -113,7 +113,7 @@ TEXT = {
         'design_ref': 'DESIGN.md §4 C12',
     },
     'C04': {
-        'text': 'Partial: deterministic guards and the sketch algebra. Kani proves on the real Poplar1 code the formula of finish_sketch (incl. the leader/helper asymmetry), the zero-test and length guards of next_message, the share-count/field-type guards of verifier_shares_to_message and the (state, message) variant matching of verify_next (output share only from RoundTwo + Done). Verus proves, over those contracts, that the honest sketch sums to zero and that a programmed value d != 0,1 leaves the residue (d^2-d) r^2.',
+        'text': 'Partial: deterministic guards and the sketch algebra. Kani proves on the real Poplar1 code the formula of finish_sketch (incl. the leader/helper asymmetry), the zero-test and length guards of next_message, the share-count/field-type guards of verifier_shares_to_message and the (state, message) variant matching of verify_next (output share only from RoundTwo + Done), and that eval_and_sketch draws one element of a single, fully bound verification-randomness stream per candidate prefix. Verus proves, over those contracts, that the honest sketch sums to zero and that a programmed value d != 0,1 leaves the residue (d^2-d) r^2.',
         'note': 'Rejection of every malformed vector holds only up to the Schwartz-Zippel error: probabilistic, not decided. IdpfPublicShare canonical decoding touches bitvec and is not covered.',
         'technique': 'function contracts on real code (Kani) + algebraic lemmas over the contracts (Verus nonlinear arithmetic)',
         'design_ref': 'DESIGN.md §4 C04',
